@@ -1,13 +1,15 @@
 """Per-property and per-suite configuration of the orchestrator."""
 
 # .vo files Extract.v depends on (built before extraction)
-EXTRACT_DEPS = ['Codec/FilterCase.vo', 'Agent/ReasmRs.vo', 'Agent/Model.vo', 'Agent/Monitors.vo']
+EXTRACT_DEPS = ['Codec/FilterCase.vo', 'Agent/ReasmRs.vo', 'Agent/Model.vo', 'Agent/Monitors.vo', 'Codec/WireMon.vo', 'Codec/AttrValue.vo']
 
 SUITES = {
+    'attrval': dict(bin='attrval', nontrivial=r'^C [DE] '),
     # bin: harness binary; driver: suite name given to ocaml/driver; nontrivial: regex on the record line
     'filter': dict(bin='filter', nontrivial=r'^C \S+ \S*[MSF]\S*[OMSF]'),
     # non-trivial: at least two chunks
     'agent': dict(bin='agent', nontrivial=r'^H '),
+    'wire': dict(bin='wire', nontrivial=r'^C (F |\S+ \S{48})'),
     'reasm': dict(bin='reasm', nontrivial=r'^C \d+ \S+ \S+'),
 }
 
@@ -19,6 +21,15 @@ AGENT_RULE = ('suite agent: random histories (8-60 operations) of a StunClient o
 AGENT_ASSUME = ['transaction ids drawn by the implementation are pairwise distinct (checked by the harness, not proved)',
                 'instants passed to the client are monotone',
                 'abstract-message level: the harness crafts real packets from abstract descriptions and reads emitted packets back with its own TLV walk, HMAC and CRC']
+
+WIRE_RULE = ('suite wire: buffers = messages crafted by the harness (unknown-type attributes of lengths 0-24, every legal and illegal '
+    'arrangement of MESSAGE-INTEGRITY / SHA256 / FINGERPRINT tails with correct or corrupted values), their mutations (bit flips, truncation, '
+    'extension, header and attribute length edits, duplicated attributes, type rewrites into integrity types) and random bytes, each decoded under '
+    'the 17 decoder configurations and compared with the byte-level Gallina decoder (real HMAC-SHA1/SHA256/CRC-32 in Gallina); plus, for clean '
+    'messages with each legal tail, EVERY single-bit fault and 16 byte substitutions per protected byte (for FINGERPRINT: every byte of the message) '
+    'on the implementation, none of which may be accepted; distinct = distinct records, non-trivial = buffers of at least 24 bytes or fault enumerations')
+WIRE_ASSUME = ['typed decoders of registered attribute kinds other than MI/SHA256/FINGERPRINT are outside the basic wire instance: buffers containing them are compared by the monitors only (counted as unmodelled)',
+               'HMAC / CRC collisions are not excluded by any theorem (C04 never = no collision)']
 
 PROPS = {
     'C09': dict(
@@ -54,8 +65,8 @@ PROPS = {
                      'instants passed to the client are monotone'],
     ),
     'C03': dict(
-        suites=['agent', 'reasm'],
-        monitors=['C03', 'C03reasm'],
+        suites=['agent', 'reasm', 'wire'],
+        monitors=['C03', 'C03reasm', 'C03dec', 'C03prefix'],
         rule='suites agent and reasm (see C05, C16): every call is made under catch_unwind; a panic is the result PANIC',
         assumptions=['external crates (PRECIS tables, pest runtime, base64, hash crates) are total functions in the model'],
     ),
@@ -66,4 +77,7 @@ PROPS = {
     'C12': dict(suites=['agent'], monitors=['C12'], rule=AGENT_RULE, assumptions=AGENT_ASSUME + []),
     'C13': dict(suites=['agent'], monitors=['C13'], rule=AGENT_RULE, assumptions=AGENT_ASSUME + []),
     'C17': dict(suites=['agent'], monitors=['C17'], rule=AGENT_RULE, assumptions=AGENT_ASSUME + []),
+    'C04': dict(suites=['wire'], monitors=['C04acc', 'C04fault'], rule=WIRE_RULE, assumptions=WIRE_ASSUME),
+    'C10': dict(suites=['wire', 'agent'], monitors=['C10acc', 'C10fault', 'C10'], rule=WIRE_RULE + ' + ' + AGENT_RULE, assumptions=WIRE_ASSUME + AGENT_ASSUME),
+    'C18': dict(suites=['filter', 'wire'], monitors=['C18all', 'C18', 'C18ud'], rule=WIRE_RULE + ' + suite filter (see C09)', assumptions=WIRE_ASSUME),
 }
